@@ -449,7 +449,7 @@ def _groupings(n):
 def tier_c_folds(run, thorough):
     bd = Bounded(run, 'C05/folds', 'C05/fold-generators/oracle/partition-and-contents',
                  'all generators; n_rdm 2..%d, n_cond 3..%d; identity / repeated-value groupings; every admissible k; '
-                 'ordered and %d shuffle seeds; list descriptors, and numpy-array descriptors for half of the shapes' % ((6, 8, 6) if thorough else (4, 6, 2)), exhaustive=False,
+                 'ordered and %d shuffle seeds (+ 4 larger designs with remainders >= 2: 5/3, 8/3, 7/4, 8/5 groups per k); list descriptors, and numpy-array descriptors for half of the shapes' % ((6, 8, 6) if thorough else (4, 6, 2)), exhaustive=False,
                  function='sets_*')
     R = range(2, 7 if thorough else 5)
     Cn = range(3, 9 if thorough else 7)
@@ -485,6 +485,13 @@ def tier_c_folds(run, thorough):
                     for nr in range(0, nrg):
                         for npat in range(0, npg):
                             chk(dict(base, k=npat, k_rdm=nr, n_cv=2, seed=1), 'random')
+    # larger remainders (n_groups mod k >= 2): several folds receive a left-over group
+    for (n_rdm, n_cond, kr, kp) in ((5, 5, 3, 3), (8, 4, 3, 2), (7, 7, 4, 4), (8, 8, 5, 3)):
+        base = dict(n_rdm=n_rdm, n_cond=n_cond, rg=list(range(n_rdm)), pg=list(range(n_cond)))
+        for rnd, seed in ((False, 0), (True, 1)):
+            chk(dict(base, k=kp, k_rdm=kr, random=rnd, seed=seed), 'k_fold')
+            chk(dict(base, k=kr, random=rnd, seed=seed), 'k_fold_rdm')
+            chk(dict(base, k=kp, random=rnd, seed=seed), 'k_fold_pattern')
     bd.done()
     return bd
 
